@@ -93,7 +93,9 @@ func (vp *validPeers) set(peerSetID PeerSetID, peers []*ServerIdentity) {
 	newPeers := make(peerSet)
 
 	for _, peer := range peers {
-		newPeers[peer.ID] = struct{}{}
+		// Use the ID derived from the public key, never the deprecated
+		// (and self-declared) ID field.
+		newPeers[peer.GetID()] = struct{}{}
 	}
 
 	vp.lock.Lock()
@@ -134,9 +136,12 @@ func (vp *validPeers) isValid(peer *ServerIdentity) bool {
 		return true
 	}
 
-	// Search whether the given peer is valid in any of the peer subsets
+	// Search whether the given peer is valid in any of the peer subsets.
+	// The lookup uses the ID derived from the public key: the ID field of a
+	// ServerIdentity received from the network is chosen by the sender.
+	id := peer.GetID()
 	for _, peers := range vp.peers {
-		_, ok := peers[peer.ID]
+		_, ok := peers[id]
 		if ok {
 			return true
 		}
@@ -226,7 +231,7 @@ func (r *Router) Start() {
 		// Reject incoming connections from invalid peers
 		if !r.isPeerValid(dst) {
 			log.Errorf("rejecting incoming connection from %v: invalid peer %v",
-				c.Remote(), dst.ID)
+				c.Remote(), dst.GetID())
 			if err := c.Close(); err != nil {
 				log.Warnf("closing connection: %v", err)
 			}
